@@ -153,14 +153,15 @@ func RegisterAll() {
 	core.Register(&core.Check{
 		Property: "C12",
 		Level:    "exploration",
-		Rule: "byzantine bytes reach the parsers only through the real seams (chip responses through the Transceiver, stored blobs through Verify); monitors: panic, worker death, deterministic step bounds, bytes allocated per call against a linear budget; " +
-			"distinct_nontrivial counts distinct (engine-specific attack, target parser, outcome) tuples",
-		Engines:        []core.Engine{SMRespEngine{}},
-		Assumptions:    []string{"boundary-scoped: only inputs that a chip or a stored blob can deliver through the real read / verify paths are generated; calling each entry point with arbitrary byte strings is input fuzzing and not part of this claim (DESIGN.md 6.12)"},
-		RealComponents: realTerminal,
-		SimComponents:  []string{"byzantine chip / adversarial link", "rotten store"},
+		Rule: "boundary-scoped: adversarial bytes reach the parsers only as a chip, a link or a stored blob can deliver them. Engines: hostile-files (a byzantine chip serves structure-aware lies - bit/byte/truncation faults, TLV lengths larger/smaller/4 GiB/indefinite, nesting beyond the limit, > 10 000 nodes, tag 00, long tags, inner length lies, duplicated/empty content, claimed giant images - in each of EF.CardAccess, EF.CardSecurity, EF.SOD, EF.COM, DG1/2/7/11/12/13/14/15/16 through a real read, then the result goes through export, store and the offline verifier); smduel-resp (forged protected responses into secure-messaging decoding); store-corrupt and store-verify (rotten and byzantine blobs into import / Verify / evidence verification); pki-forgery (corrupted SOD, CardSecurity, master lists into CMS and certificate parsing). Monitors: panic (escaped, or contained by the reader's recover and reproduced on the constructor alone), worker death re-executed alone, deterministic exchange and logging-step bounds, bytes allocated per call against a linear budget; " +
+			"distinct_nontrivial counts distinct (engine-specific target, mutation, outcome) tuples",
+		Engines:        []core.Engine{HostileFilesEngine{}, SMRespEngine{}, StoreCorruptEngine{}, StoreVerifyEngine{}, PKIForgeryEngine{}},
+		Assumptions:    []string{"boundary-scoped: only inputs that a chip, link or stored blob can deliver through the real read / verify paths are generated; calling each entry point with arbitrary byte strings is input fuzzing and not part of this claim (DESIGN.md 6.12)", "allocation budget: 8 MiB + 2 KiB per input byte for one response; 256 MiB + 8 KiB per stored byte for a whole read; 64 MiB + 4 KiB per byte for Verify"},
+		RealComponents: []string{"gmrtd reader, iso7816 (SM decode), tlv, every document constructor, cms, mrz, iso19794/39794, document CBOR import, verifier, evidence verification"},
+		SimComponents:  []string{"byzantine SimChip file contents", "adversarial link", "rotten / byzantine store", "byzantine issuer"},
+		RequiredProbes: []string{"rejected"},
 		CrashOwner:     true,
-		QuickBudget:    60, ThoroughBudget: 900,
+		QuickBudget:    150, ThoroughBudget: 2400,
 	})
 	core.Register(&core.Check{
 		Property: "C03",
